@@ -73,6 +73,9 @@ StepRules(st, self, types, cache) ==
   \cup (IF (term /\ k = "Close") => st.ret = "nil" THEN {} ELSE {"C02.closeOk"})
   (* ---------------- C04 ---------------- *)
   \cup (IF st.panic = "" THEN {} ELSE {"C04.noPanic"})
+  \cup (IF ((isReqStim /\ m.kind \in {"New","Restart"}) \/ k = "Restart")
+           => \A i \in 1..Len(st.val) : st.val[i].vtype = VType(IF m.kind = "New" \/ ~has \/ pre.vouchers = << >> THEN m.v ELSE pre.vouchers[1])
+        THEN {} ELSE {"C04.rightValidator"})
   \cup (IF (isReqStim /\ m.kind \in {"New","Restart"})
            => (((~has /\ T.hasPost) \/ Has(TrOf(st.tr, "open"), LAMBDA t : t.ok) \/ reply.accepted \/ applied("Restart")) => valOK)
         THEN {} ELSE {"C04.validated"})
